@@ -555,6 +555,19 @@ func c16RaceTask(nThreads, pb int, prepopulated bool) func(res *TaskResult) {
 }
 
 // c16RaceTaskH: withHolder adds a thread that holds the directory open and Closes it while the others Open.
+// c16RaceTaskHF: as c16RaceTaskH with a holder, whose Close additionally races one of its OWN calls in flight (a Fold
+// over two keys, a Put): Close must still return and release the directory.
+func c16RaceTaskHF(nThreads, pb int, busy string) func(res *TaskResult) {
+	inner := c16RaceTaskH(nThreads, pb, true, true)
+	return func(res *TaskResult) {
+		c16HolderBusy = busy
+		defer func() { c16HolderBusy = "" }()
+		inner(res)
+	}
+}
+
+var c16HolderBusy string
+
 func c16RaceTaskH(nThreads, pb int, prepopulated, withHolder bool) func(res *TaskResult) {
 	return func(res *TaskResult) {
 		debug.SetGCPercent(-1)
@@ -573,6 +586,7 @@ func c16RaceTaskH(nThreads, pb int, prepopulated, withHolder bool) func(res *Tas
 					return &ExecResult{OpenErr: err.Error()}
 				}
 				db.Put([]byte("a"), []byte("1"))
+				db.Put([]byte("b"), []byte("2"))
 				db.Close()
 			}
 			ex := &ExecResult{}
@@ -592,6 +606,18 @@ func c16RaceTaskH(nThreads, pb int, prepopulated, withHolder bool) func(res *Tas
 					return &ExecResult{OpenErr: err.Error()}
 				}
 				fns = append(fns, func() { hdb.Close() })
+				switch c16HolderBusy {
+				case "fold":
+					fns = append(fns, func() {
+						defer func() { recover() }() // what a call racing Close returns is not judged here
+						hdb.Fold(func(k, v []byte) bool { return true })
+					})
+				case "put":
+					fns = append(fns, func() {
+						defer func() { recover() }()
+						hdb.Put([]byte("a"), []byte("busy"))
+					})
+				}
 			}
 			iorec.SchedPoints = true
 			ex.Sched = sched.Run(prefix, fns...)
@@ -633,7 +659,7 @@ func c16RaceTaskH(nThreads, pb int, prepopulated, withHolder bool) func(res *Tas
 				res.Err = "replay divergence in racing-Open scenario"
 				return false
 			case ex.Sched.Abort != sched.AbortNone:
-				bad = "deadlock / livelock among racing Opens"
+				bad = "deadlock / livelock among racing Opens (with a holder: its Close never returns, the directory stays locked)"
 			case ok > 1:
 				bad = fmt.Sprintf("%d racing Opens of one directory all succeeded", ok)
 			case ok+using != len(ex.Calls):
@@ -674,7 +700,7 @@ func c16RaceTaskH(nThreads, pb int, prepopulated, withHolder bool) func(res *Tas
 // second time. All orders of A's events around the checks are enumerated (B stays open throughout).
 func c16NeighbourTask(res *TaskResult) {
 	beginExecution()
-	evs := []string{"openA", "writeA", "mergeA", "closeA"}
+	evs := []string{"openA", "writeA", "mergeA", "backupA", "closeA"}
 	states := map[uint64]bool{}
 	// every prefix-closed sequence over A's events (length <= 6) in which A is open when it writes / merges / closes
 	var seqs [][]string
@@ -732,6 +758,13 @@ func c16NeighbourTask(res *TaskResult) {
 						if err != nil && !strings.HasPrefix(err.Error(), "panic") {
 							err = nil
 						}
+					case "backupA":
+						// a backup INTO the directory of the open database: whether it is refused or overwrites files there is
+						// not C16's business - but the directory stays locked
+						if e := a.Backup(dirB); e != nil && strings.HasPrefix(e.Error(), "panic") {
+							err = e
+						}
+						want = ""
 					case "closeA":
 						err = a.Close()
 						a = nil
@@ -741,7 +774,9 @@ func c16NeighbourTask(res *TaskResult) {
 					return fmt.Sprintf("event %d %s failed: %v", i, e, err)
 				}
 				res.Evals++
-				if got := dirFingerprint(dirB); got != want {
+				if want == "" {
+					want = dirFingerprint(dirB) // after a backup into it: whatever is there now
+				} else if got := dirFingerprint(dirB); got != want {
 					return fmt.Sprintf("after event %d %s of the neighbour on %q the contents of %q (an open database) changed: %s", i, e, "db", "db-merge", listDirPlain(dirB))
 				}
 				if c, err := kv.Open(defaultCfg.options(dirB)); err == nil {
@@ -750,7 +785,7 @@ func c16NeighbourTask(res *TaskResult) {
 				} else if !errors.Is(err, kv.ErrDatabaseIsUsing) {
 					return fmt.Sprintf("after event %d %s of the neighbour, a second Open of %q returned %v (want the directory-in-use error)", i, e, "db-merge", err)
 				}
-				if v, err := b.Get([]byte("x")); err != nil || string(v) != "B's value" {
+				if v, err := b.Get([]byte("x")); !backedUp(seq[:i+1]) && (err != nil || string(v) != "B's value") {
 					return fmt.Sprintf("after event %d %s of the neighbour, the open database on %q reads x = %q, %v", i, e, "db-merge", v, err)
 				}
 			}
@@ -774,6 +809,15 @@ func c16NeighbourTask(res *TaskResult) {
 		res.States = append(res.States, h)
 	}
 	res.Samples = append(res.Samples, fmt.Sprintf("%d event sequences of the neighbour (openA writeA mergeA closeA, length <= 6) next to an open database on db-merge", len(seqs)))
+}
+
+func backedUp(seq []string) bool {
+	for _, e := range seq {
+		if e == "backupA" {
+			return true
+		}
+	}
+	return false
 }
 
 func listDirPlain(dir string) string {
@@ -812,6 +856,8 @@ func init() {
 				{Level: "close-vs-opens", Name: "holder closes while 1 opens", Fn: c16RaceTaskH(1, -1, true, true)},
 				{Level: "close-vs-opens", Name: "holder closes while 2 open", Fn: c16RaceTaskH(2, -1, true, true)},
 				{Level: "close-vs-opens", Name: "holder closes while 3 open", Fn: c16RaceTaskH(3, 3, true, true)},
+				{Level: "close-vs-opens", Name: "holder closes during its own Fold while 1 opens", Fn: c16RaceTaskHF(1, 3, "fold")},
+				{Level: "close-vs-opens", Name: "holder closes during its own Put while 1 opens", Fn: c16RaceTaskHF(1, 3, "put")},
 				{Level: "neighbour-merge-directory", Name: "neighbour whose merge directory is an open database", Fn: c16NeighbourTask},
 			}
 		},
